@@ -272,7 +272,7 @@ func c18cli(c *ev.Ctx) {
 							lines := keyfile.Lines(content)
 							for _, ln := range want.Skipped {
 								typ := strings.Fields(lines[ln-1])[0]
-								if !strings.Contains(warnings.String(), fmt.Sprintf("%q at line %d", typ, ln)) {
+								if w := warnings.String(); !strings.Contains(w, typ) || !strings.Contains(w, fmt.Sprint(ln)) {
 									c.Fail("silent-skip", id, fmt.Sprintf("unsupported SSH key at line %d skipped without a warning naming type and line", ln), det())
 								}
 							}
